@@ -488,6 +488,127 @@ fn run_app(case: &Case, fatal_fd: i32) -> ChildResult {
     }
 }
 
+/// family app-rebuild (round 8): an application built from the first network stays alive, the files are replaced
+/// by another network at the same paths, and two threads build an application each at the same time. Both must show
+/// the second network, the old application still the first - read through the binding accessors.
+fn gen_app_rebuild(seed: u64, tier: Tier) -> Case {
+    let mut c = gen_app(seed, "app-legal", tier);
+    c.family = "app-rebuild".into();
+    let mut r = Rng::new(seed ^ fnv64("C15-app-rebuild"));
+    // (another world whose edge and vertex files carry the same names: file names depend on the compression flags,
+    // and plugin configurations hold them, so a world that matches is drawn rather than patched)
+    let mut w2 = gen_app(r.next_u64() >> 12, "app-legal", tier).world;
+    for _ in 0..40 {
+        if w2.edges_path() == c.world.edges_path() && w2.vertices_path() == c.world.vertices_path() {
+            break;
+        }
+        w2 = gen_app(r.next_u64() >> 12, "app-legal", tier).world;
+    }
+    if r.chance(0.7) {
+        // counts scanned from the files in both configurations (nothing in the configuration tells the networks apart)
+        c.world.explicit_counts = false;
+        w2.explicit_counts = false;
+    }
+    c.simcfg.sched = r.pick(&[sim::SchedMode::Random, sim::SchedMode::Pct, sim::SchedMode::PctSync]).clone();
+    c.simcfg.p_stay = *r.pick(&[0.5, 0.9, 0.97]);
+    c.simcfg.alloc_every = *r.pick(&[0u64, 8, 64]);
+    c.simcfg.atomic_every = *r.pick(&[0u64, 1, 5]);
+    c.simcfg.pct_depth = r.range(1, 4) as u32;
+    c.simcfg.pct_horizon = *r.pick(&[50u64, 500, 5000]);
+    c.simcfg.faults = sim::F_SHORT_READ;
+    c.simcfg.io_fault_rate = *r.pick(&[0.0, 0.1, 0.5]);
+    c.simcfg.max_steps = 3_000_000;
+    c.params = json!({"world2": w2, "mtime_variant": r.below(3)});
+    c
+}
+
+fn run_app_rebuild(case: &Case, fatal_fd: i32) -> ChildResult {
+    let out = execute_custom(case, fatal_fd, |case| {
+        use crate::scenario::Bind;
+        let w = case.world.clone();
+        let w2: World = match serde_json::from_value(case.params["world2"].clone()) {
+            Ok(x) => x,
+            Err(e) => return json!({"harness": e.to_string()}),
+        };
+        let first = match std::panic::catch_unwind(std::panic::AssertUnwindSafe(|| build_app(&w.config(true)))) {
+            Ok(Ok(app)) => Bind { app },
+            Ok(Err(e)) => return json!({"first_build_error": e}),
+            Err(_) => return json!({"first_build_panic": true}),
+        };
+        let first_before = graph_api_diffs(&w, &first);
+        sim::advance_clock(*[0u64, 1_000_000_000, 3_600_000_000_000].get(case.seed as usize % 3).unwrap());
+        let variant = case.params["mtime_variant"].as_u64().unwrap_or(0);
+        sim::with(|s| {
+            for (p, d) in w2.files() {
+                match variant {
+                    0 => s.put_file(&p, d),
+                    1 => s.put_file_with_mtime(&p, d, crate::sim::REALTIME_EPOCH_NS - 86_400_000_000_000),
+                    _ => match s.mtime_of(&p) {
+                        Some(t) => s.put_file_with_mtime(&p, d, t),
+                        None => s.put_file(&p, d),
+                    },
+                }
+            }
+        });
+        let cfg2 = w2.config(true);
+        let pool = crate::harness::make_pool(2);
+        let build2 = || -> Value {
+            match std::panic::catch_unwind(std::panic::AssertUnwindSafe(|| build_app(&cfg2))) {
+                Ok(Ok(app)) => json!(graph_api_diffs(&w2, &Bind { app })),
+                Ok(Err(e)) => json!({"build_error": e}),
+                Err(_) => json!({"build_panic": true}),
+            }
+        };
+        sim::set_quiet(false);
+        let (rb, rc) = pool.install(|| rayon::join(build2, build2));
+        sim::set_quiet(true);
+        drop(pool);
+        let first_after = graph_api_diffs(&w, &first);
+        json!({"first_before": first_before, "first_after": first_after, "second": [rb, rc]})
+    });
+    let mut v = vec![];
+    let mut reach: BTreeMap<String, u64> = BTreeMap::new();
+    for p in &out.panics {
+        v.push(Violation { class: format!("panic@{}", super::c12::panic_class(p).trim_start_matches("panic@")), detail: format!("panic while building: {} at {}", p.message, p.location) });
+    }
+    let mut nontrivial = false;
+    if let Some(val) = &out.value {
+        if val.get("harness").is_some() {
+            return ChildResult { violations: v, nontrivial: false, signature: 0, reach, sample: val.clone(), stats: Some(out.stats.clone()), recorded: Some(out.recorded.clone()), harness_error: Some(val["harness"].to_string()) };
+        }
+        if val.get("first_build_error").is_some() || val.get("first_build_panic").is_some() {
+            v.push(Violation { class: "app-reference-failed".into(), detail: format!("the application could not be built from intact files: {}", val.to_string().chars().take(300).collect::<String>()) });
+        } else {
+            nontrivial = true;
+            *reach.entry("applications_rebuilt_by_two_threads_after_the_files_were_replaced".into()).or_insert(0) += 1;
+            for (k, what) in [("first_before", "the first application"), ("first_after", "the first application, after the files were replaced and two more applications were built,")] {
+                if let Some(ds) = val[k].as_array().filter(|d| !d.is_empty()) {
+                    v.push(Violation { class: "app-graph-accessors-differ".into(), detail: format!("{} does not show the network it was built from: {:?}", what, ds) });
+                }
+            }
+            for (i, r) in val["second"].as_array().cloned().unwrap_or_default().iter().enumerate() {
+                if let Some(e) = r.get("build_error") {
+                    v.push(Violation { class: "app-load-failed".into(), detail: format!("application {} of the two built at the same time after the files were replaced failed to build (only short reads were injected): {}", i, e) });
+                } else if let Some(ds) = r.as_array().filter(|d| !d.is_empty()) {
+                    v.push(Violation { class: "app-graph-stale-after-files-replaced".into(), detail: format!("application {} of the two built at the same time after the files were replaced does not show the network the files describe now: {:?}", i, ds) });
+                }
+            }
+        }
+    }
+    reach.insert("preemptions".into(), out.stats.preemptions);
+    let w = &case.world;
+    ChildResult {
+        violations: v,
+        nontrivial,
+        signature: fnv64(&format!("{}|{}", serde_json::to_string(&w.edges).unwrap(), out.stats.sched_hash)),
+        reach,
+        sample: json!({"seed": case.seed, "family": case.family, "vertices": w.nv(), "edges": w.ne(), "switches": out.stats.switches, "mtime_variant": case.params["mtime_variant"]}),
+        stats: Some(out.stats.clone()),
+        recorded: Some(out.recorded.clone()),
+        harness_error: None,
+    }
+}
+
 fn run_concurrent(case: &Case, fatal_fd: i32) -> ChildResult {
     let out = execute_custom(case, fatal_fd, |case| {
         let wa = case.world.clone();
@@ -570,7 +691,7 @@ impl Check for C15 {
         "fault_enumeration"
     }
     fn families(&self, _tier: Tier) -> Vec<&'static str> {
-        vec!["legal", "enumerate", "hard", "app-legal", "legal", "enumerate", "app-hard", "nofault", "hard", "app-hard", "enumerate", "concurrent", "legal"]
+        vec!["legal", "enumerate", "hard", "app-legal", "legal", "enumerate", "app-hard", "nofault", "hard", "app-hard", "enumerate", "concurrent", "legal", "app-rebuild"]
     }
     fn default_runs(&self, tier: Tier) -> u64 {
         match tier {
@@ -587,6 +708,9 @@ impl Check for C15 {
     fn gen(&self, seed: u64, family: &str, tier: Tier) -> Case {
         if family == "enumerate" {
             return gen_enumerate(seed, seed, seed);
+        }
+        if family == "app-rebuild" {
+            return gen_app_rebuild(seed, tier);
         }
         if family.starts_with("app-") {
             return gen_app(seed, family, tier);
@@ -682,6 +806,9 @@ impl Check for C15 {
         Case { check: "C15".into(), seed, family: family.to_string(), world: w, batches: vec![], workers: 1, run_parallelism: None, simcfg, recorded: None, params }
     }
     fn run(&self, case: &Case, fatal_fd: i32) -> ChildResult {
+        if case.family == "app-rebuild" {
+            return run_app_rebuild(case, fatal_fd);
+        }
         if case.family.starts_with("app-") {
             return run_app(case, fatal_fd);
         }
@@ -751,9 +878,22 @@ impl Check for C15 {
             }
             if let Some(rs) = case.params.get("reload_seed").and_then(|x| x.as_u64()) {
                 let w2 = reload_world(w, rs);
+                // the new files are written in place now, or were produced a day ago and are moved into place with
+                // their times kept (mv, cp -p, rsync -t), or carry the very time stamp of the files they replace (a
+                // file system with coarse time stamps)
                 sim::with(|s| {
                     for (p, d) in w2.files() {
-                        s.put_file(&p, d);
+                        match rs % 3 {
+                            0 => s.put_file(&p, d),
+                            1 => s.put_file_with_mtime(&p, d, crate::sim::REALTIME_EPOCH_NS - 86_400_000_000_000),
+                            _ => {
+                                let t = s.mtime_of(&p);
+                                match t {
+                                    Some(t) => s.put_file_with_mtime(&p, d, t),
+                                    None => s.put_file(&p, d),
+                                }
+                            }
+                        }
                     }
                 });
                 let cfg2 = w2.config(false);
